@@ -30,6 +30,12 @@ def run(chk, tier):
         cr.check_debug_asserts(chk, rule="R5.7")
         n = ci.check_identities(chk, prog, cfg)
         chk.count("alias_impls[%s]" % cfg, n)
+        # two instantiations of one generic type differ in their recorded parameters only if the builders keep what they are given in any call order
+        from . import c17
+        c17.transitions(chk, prog, cfg, "docs" in feats)
+    # aliasing is decided by type identity, never by name: the derive refers every member to its declared type (a user type called `Box` is not a Box)
+    from . import c09
+    c09.corpus(chk, tier)
     n = len({i["construct"] for i in chk.instances if i["rule"] == "R5.3" and i["construct"].startswith("alias:")})
     chk.floor("R5.3", n, 9, "alias impls named by the property: Box, Rc, Arc, &T, &mut T, Vec, VecDeque, String, PhantomData")
     n = len({i["construct"] for i in chk.instances if i["rule"] == "R5.3"})
